@@ -400,8 +400,13 @@ func (a *TCPAllocation) Addr() net.Addr {
 // HandleConnectionAttempt is called by the TURN client
 // when it receives a ConnectionAttempt indication.
 func (a *TCPAllocation) HandleConnectionAttempt(from *net.TCPAddr, cid proto.ConnectionID) {
-	a.connAttemptCh <- &connectionAttempt{
+	// Called from the client's read loop: it must not block when nobody is accepting.
+	select {
+	case a.connAttemptCh <- &connectionAttempt{
 		from: from,
 		cid:  cid,
+	}:
+	default:
+		a.log.Warnf("Connection attempt queue full, dropping attempt from %s", from)
 	}
 }
